@@ -21,6 +21,8 @@ def build(run):
              claim="for every char: results are valid scalar values, stay in the braille block, identity outside it"),
     ]
     run.kani(c, lemmas)
+    crate_n, lemma_n = nav_lemma(run)
+    run.kani(crate_n, [lemma_n], timeout=300)
     indicator_sync(run)
 
 
@@ -179,3 +181,67 @@ def indicator_sync(run):
         run.sample({"observation": "Z-C07-a.%s.class_members_have_replacements" % code, "status": ro["status"],
                     "meaning": ("indicator %r is emitted by the %s rules, matched by REPLACE_INDICATORS, but has no entry in %s: it is deleted from the output" % (ro["model"].get("c"), code, tname))
                     if ro["status"] == "sat" else "every matched emitted indicator has a replacement"})
+
+
+# ======================================================================================================================
+# K-C07-c: with no navigation node given (empty id) the matched result is never highlighted / marked
+NAV_HARNESS = r'''
+use std::cell::RefCell;
+use core::marker::PhantomData;
+pub type Result<T> = core::result::Result<T, ()>;
+RULES_FOR_ENUM
+pub struct Prefs;
+impl Prefs { fn pref_to_string(&self, _n: &str) -> String { String::new() } }
+pub struct SpeechRules { name: RulesFor, pref_manager: RefCell<Prefs> }
+pub struct SpeechRulesWithContext<'c, 's: 'c, 'm: 'c> { nav_node_id: &'m str, speech_rules: &'s SpeechRules, p: PhantomData<&'c ()> }
+pub trait TreeOrString<'c, 'm: 'c, T> { fn highlight_braille(s: T, style: String) -> T; fn mark_nav_speech(s: T) -> T; }
+pub struct Out { touched: bool }
+impl<'c, 'm: 'c> TreeOrString<'c, 'm, Out> for Out {
+    fn highlight_braille(_s: Out, style: String) -> Out { core::mem::forget(style); Out { touched: true } }
+    fn mark_nav_speech(_s: Out) -> Out { Out { touched: true } }
+}
+#[derive(Clone, Copy)] pub struct Element<'c> { id: Option<&'static str>, p: PhantomData<&'c ()> }
+impl<'c> Element<'c> { fn attribute_value(&self, _n: &str) -> Option<&'static str> { self.id } }
+impl<'c, 's: 'c, 'm: 'c> SpeechRulesWithContext<'c, 's, 'm> {
+    NAV_FN
+    /// the success arm of find_match, verbatim
+    fn matched<T: TreeOrString<'c, 'm, T>>(&self, s: T, mathml: Element<'c>) -> Result<Option<T>> {
+        ARM_BODY
+    }
+}
+// K-C07-c
+HARNESS(no_nav_node_no_highlight, 6) {
+    let rules = SpeechRules { name: if sym::bool() { RulesFor::Braille } else { RulesFor::Speech }, pref_manager: RefCell::new(Prefs) };
+    let nav_given = sym::bool();
+    let ctx = SpeechRulesWithContext { nav_node_id: if nav_given { "n1" } else { "" }, speech_rules: &rules, p: PhantomData };
+    // the element may carry no id, an ordinary id, the navigation id, or an (author-supplied) EMPTY id
+    let el = Element { id: match sym::below(4) { 0 => None, 1 => Some("n1"), 2 => Some("zz"), _ => Some("") }, p: PhantomData };
+    let r = ctx.matched(Out { touched: false }, el).unwrap().unwrap();
+    cover!(r.touched, "highlighted node reachable");
+    cover!(!nav_given && el.id.is_some() && el.id.unwrap().is_empty(), "element with an empty id and no navigation node reachable");
+    if !nav_given { assert!(!r.touched, "braille / speech of a node is highlighted although no navigation node was given"); }
+    else { assert!(r.touched == (el.id.is_some() && el.id.unwrap().len() == 2 && el.id.unwrap().as_bytes()[0] == b'n'), "the wrong node is highlighted"); }
+}
+'''
+
+
+def nav_lemma(run):
+    sp = _sl.Source.get("src/speech.rs")
+    fm = sp.find("fn find_match")
+    arm = sp.find_bracketed("Ok ( s ) => {", within=fm)[0]
+    body = arm.text[arm.text.index("{") + 1: arm.text.rindex("}")]
+    nav = sp.find("fn nav_node_adjust")
+    enum = sp.find("enum RulesFor")
+    run.uses(arm, nav, enum)
+    import kani_run as _kr
+    crate = _kr.Crate("c07nav", NAV_HARNESS.replace("RULES_FOR_ENUM", enum.text).replace("NAV_FN", nav.text).replace("ARM_BODY", body))
+    run.bound("K-C07-c", "navigation id given / not given x rule set {Braille, Speech} x element id in {none, the navigation id, another id, the empty string}")
+    run.assume("SpeechRules / PreferenceManager / Element / TreeOrString reduced to what nav_node_adjust and the success arm of find_match use; highlighting itself is decided by K-C07-b")
+
+    def api(vals, out):
+        res = _mcprobe([("pref", "BrailleCode UEB"), ("mathml", "<math><mi id=''>x</mi><mo>+</mo><mn>1</mn></math>"), ("braille", "")])
+        bad = res[-1][0] != "OK" or any(0x28C0 <= ord(c) <= 0x28FF for c in res[-1][1])
+        return bad, {"script": "element with id='' ; get_braille('') (no navigation node): no cell may carry dots 7-8", "braille": res[-1]}
+    return crate, dict(id="K-C07-c.no_nav_node_no_highlight", harness="no_nav_node_no_highlight", api=api, role=lambda v, o: "highlight-without-nav-node",
+                       covers=["highlighted node reachable", "element with an empty id and no navigation node reachable"],
+                       claim="nav id empty => result untouched for every element id (also id=''); nav id given => exactly the element with that id is highlighted")
